@@ -2083,14 +2083,14 @@ func runFlushWindow(run *vk.Run, transports []string) {
 	sampleOnce(run, "p3/h5", 1, map[string]any{"part": 3, "case": "forced window between state=connected and flush (H5)", "outcome": out, "wire": t.wireTrace(20)})
 }
 
-// runHotEmitter: ONE goroutine emits numbered events without pause from before Connect() until after
-// the socket has connected; the first `buffered` of them are emitted before Connect() was even
-// called. A single goroutine defines a total emission order, so the order on the wire of that
-// socket must be exactly 0,1,2,...: an event emitted while the offline buffer is being flushed must
-// not overtake the buffered ones (and none may be lost or doubled). The emitter is typically parked
-// on the socket's buffer lock at the moment of the flush, which is what makes the window reachable
-// without a hook inside it.
-func runHotEmitter(run *vk.Run, transports []string, buffered int) {
+// runHotEmitter: `emitters` goroutines emit numbered events without pause from before Connect() until after
+// the socket has connected; the first `buffered` events of emitter 0 are emitted before Connect() was even
+// called. Each goroutine defines a total emission order, so on the wire the events of emitter g must read
+// exactly 0,1,2,...: an event emitted while the offline buffer is being flushed must not overtake the
+// buffered ones, none may be lost or doubled, and nothing may stay stuck in the buffer once the socket is
+// connected. The emitters are typically parked on the socket's buffer lock at the moment of the flush, which
+// is what makes the window reachable without a hook inside it.
+func runHotEmitter(run *vk.Run, transports []string, buffered, emitters int) {
 	run.Eval(1)
 	w, err := newWorld(0)
 	if err != nil {
@@ -2102,49 +2102,58 @@ func runHotEmitter(run *vk.Run, transports []string, buffered int) {
 	defer closeManager(run, cl.m)
 	s := cl.socket("/")
 	var connected atomic.Bool
+	var disconnects atomic.Int32
 	s.OnConnect(func() { connected.Store(true) })
-	n := 0
-	for ; n < buffered; n++ {
-		s.Emit("hot", n)
+	s.OnDisconnect(func(sio.Reason) { disconnects.Add(1) })
+	n0 := 0
+	for ; n0 < buffered; n0++ {
+		s.Emit("hot", 0, n0)
 	}
 	stop := make(chan struct{})
-	done := make(chan int)
-	go func() {
-		i := n
-		for {
-			select {
-			case <-stop:
-				done <- i
-				return
-			default:
+	totals := make([]int, emitters)
+	var ewg sync.WaitGroup
+	for g := 0; g < emitters; g++ {
+		ewg.Add(1)
+		go func(g int) {
+			defer ewg.Done()
+			i := 0
+			if g == 0 {
+				i = n0
 			}
-			s.Emit("hot", i)
-			i++
-			if i-n > 50000 {
-				done <- i
-				return
+			start := i
+			for {
+				select {
+				case <-stop:
+					totals[g] = i
+					return
+				default:
+				}
+				s.Emit("hot", g, i)
+				i++
+				if i-start > 50000/emitters {
+					totals[g] = i
+					<-stop
+					return
+				}
 			}
-		}
-	}()
+		}(g)
+	}
 	s.Connect()
 	if !vk.WaitUntil(20*time.Second, connected.Load) {
 		close(stop)
-		<-done
+		ewg.Wait()
 		run.Inconclusive("hot-emitter: no connect within 20 s")
 		return
 	}
 	time.Sleep(5 * time.Millisecond)
 	close(stop)
-	total := <-done
-	// barrier: an acked event emitted by the same goroutine order-wise last
-	acked := make(chan struct{}, 1)
-	s.Emit("hot-fence", func() {
-		select {
-		case acked <- struct{}{}:
-		default:
-		}
-	})
-	sessions := w.raw.Sessions()
+	ewg.Wait()
+	total := 0
+	for _, t := range totals {
+		total += t
+	}
+	// barrier: an event emitted after every emitter has stopped, on the quiet, connected socket
+	s.Emit("hot-fence")
 	fenceSeen := false
 	vk.WaitUntil(30*time.Second, func() bool {
 		for _, se := range w.raw.Sessions() {
@@ -2158,60 +2167,168 @@ func runHotEmitter(run *vk.Run, transports []string, buffered int) {
 		}
 		return false
 	})
-	sessions = w.raw.Sessions()
-	var wire []int
-	for _, se := range sessions {
+	wire := make([][]int, emitters)
+	onWire := 0
+	for _, se := range w.raw.Sessions() {
 		ps, _ := se.Packets()
 		for _, sp := range ps {
 			if rawpeer.EventName(sp.P) != "hot" {
 				continue
 			}
-			if a := rawpeer.Args(sp.P); len(a) > 0 {
-				if v, ok := rawpeer.Num(a[0]); ok {
-					wire = append(wire, int(v))
+			if a := rawpeer.Args(sp.P); len(a) > 1 {
+				g, ok1 := rawpeer.Num(a[0])
+				v, ok2 := rawpeer.Num(a[1])
+				if ok1 && ok2 && int(g) < emitters {
+					wire[int(g)] = append(wire[int(g)], int(v))
+					onWire++
 				}
 			}
 		}
 	}
 	tr := strings.Join(transports, "+")
+	fields := map[string]any{"phase": "hot-emitter"}
 	if !fenceSeen {
-		run.Inconclusive(fmt.Sprintf("hot-emitter %s: fence not seen on the wire within 30 s (%d of %d events arrived)", tr, len(wire), total))
+		if s.Connected() && disconnects.Load() == 0 {
+			run.Violation(vk.Violation{Sub: "offline-event-lost", Fields: fields,
+				What: fmt.Sprintf("%d goroutines emitted %d events across the connect; the socket is connected (no disconnect), but an event emitted afterwards on the quiet socket did not reach the server within 30 s (%d of %d earlier events arrived): emits are stuck in the send buffer [%s]",
+					emitters, total, onWire, total, tr),
+				Witness: map[string]any{"transports": transports, "emitters": emitters, "buffered_before_connect": buffered, "emitted": total, "on_wire": onWire, "seed": run.Seed()}})
+		} else {
+			run.Inconclusive(fmt.Sprintf("hot-emitter %s: fence not seen on the wire within 30 s (%d of %d events arrived, connected=%v)", tr, onWire, total, s.Connected()))
+		}
 		return
 	}
-	fields := map[string]any{"phase": "hot-emitter"}
-	firstBad := -1
-	for i := range wire {
-		if wire[i] != i {
-			firstBad = i
-			break
-		}
-	}
-	if firstBad >= 0 || len(wire) != total {
-		lo := firstBad - 3
-		if lo < 0 {
-			lo = 0
-		}
-		hi := firstBad + 6
-		if firstBad < 0 {
-			lo, hi = len(wire)-5, len(wire)
-			if lo < 0 {
-				lo = 0
+	for g := 0; g < emitters; g++ {
+		firstBad := -1
+		for i := range wire[g] {
+			if wire[g][i] != i {
+				firstBad = i
+				break
 			}
 		}
-		if hi > len(wire) {
-			hi = len(wire)
+		if firstBad < 0 && len(wire[g]) == totals[g] {
+			continue
 		}
+		lo, hi := firstBad-3, firstBad+6
 		kind := "offline-overtaken-by-later-emit"
 		if firstBad < 0 {
 			kind = "offline-event-lost"
+			lo, hi = len(wire[g])-5, len(wire[g])
+		}
+		if lo < 0 {
+			lo = 0
+		}
+		if hi > len(wire[g]) {
+			hi = len(wire[g])
 		}
 		run.Violation(vk.Violation{Sub: kind, Fields: fields,
-			What: fmt.Sprintf("one goroutine emitted events 0..%d on one socket (%d of them before Connect()), wire has %d events and deviates from 0,1,2,... at position %d: ...%v... [%s]",
-				total-1, buffered, len(wire), firstBad, wire[lo:hi], tr),
-			Witness: map[string]any{"transports": transports, "buffered_before_connect": buffered, "emitted": total, "on_wire": len(wire), "first_deviation": firstBad, "wire_around": wire[lo:hi], "seed": run.Seed()}})
+			What: fmt.Sprintf("goroutine %d of %d emitted events 0..%d on one socket across the connect (%d buffered before Connect()), the wire has %d of them and deviates from 0,1,2,... at position %d: ...%v... [%s]",
+				g, emitters, totals[g]-1, buffered, len(wire[g]), firstBad, wire[g][lo:hi], tr),
+			Witness: map[string]any{"transports": transports, "emitters": emitters, "emitter": g, "buffered_before_connect": buffered, "emitted": totals[g], "on_wire": len(wire[g]), "first_deviation": firstBad, "wire_around": wire[g][lo:hi], "seed": run.Seed()}})
+		break
 	}
 	run.Count("p3_hot_emitter_events", int64(total))
-	run.Distinct(fmt.Sprintf("buffer/hot-emitter/%s/buffered=%d", tr, buffered))
+	run.Distinct(fmt.Sprintf("buffer/hot-emitter/%s/buffered=%d/emitters=%d", tr, buffered, emitters))
+}
+
+// runOfflineTimeout: an ack-carrying emit WITH binary arguments whose timeout expires while the socket has
+// never been connected sits in the offline buffer as several frames (header + attachments). When it is purged,
+// all of them must go: the other offline emits must reach the server once, in order, on a connection that
+// stays up, and the timed-out event must not.
+func runOfflineTimeout(run *vk.Run, transports []string, attachments int) {
+	run.Eval(1)
+	w, err := newWorld(0)
+	if err != nil {
+		run.Inconclusive("world: " + err.Error())
+		return
+	}
+	defer w.close()
+	cl := newClient(w.url, transports, 0, 30*time.Millisecond, 200*time.Millisecond, 0)
+	defer closeManager(run, cl.m)
+	s := cl.socket("/")
+	var connects, disconnects, cbErr, cbOK atomic.Int32
+	s.OnConnect(func() { connects.Add(1) })
+	s.OnDisconnect(func(sio.Reason) { disconnects.Add(1) })
+	s.Emit("ot", 0)
+	args := []any{1}
+	for i := 0; i < attachments; i++ {
+		args = append(args, sio.Binary([]byte{byte(i), 2, 3}))
+	}
+	args = append(args, func(err error) {
+		if err != nil {
+			cbErr.Add(1)
+		} else {
+			cbOK.Add(1)
+		}
+	})
+	s.Timeout(30*time.Millisecond).Emit("ot-timed", args...)
+	s.Emit("ot", 2)
+	vk.WaitUntil(5*time.Second, func() bool { return cbErr.Load()+cbOK.Load() > 0 })
+	time.Sleep(10 * time.Millisecond)
+	s.Emit("ot", 3)
+	s.Connect()
+	tr := strings.Join(transports, "+")
+	fields := map[string]any{"phase": "offline-timeout", "attachments": attachments}
+	wit := map[string]any{"transports": transports, "attachments_of_timed_out_emit": attachments, "seed": run.Seed()}
+	if !vk.WaitUntil(20*time.Second, func() bool { return connects.Load() > 0 }) {
+		run.Inconclusive("offline-timeout " + tr + ": no connect within 20 s")
+		return
+	}
+	s.Emit("ot-fence")
+	fence := vk.WaitUntil(15*time.Second, func() bool {
+		for _, se := range w.raw.Sessions() {
+			ps, _ := se.Packets()
+			for _, sp := range ps {
+				if rawpeer.EventName(sp.P) == "ot-fence" {
+					return true
+				}
+			}
+		}
+		return false
+	})
+	var got []int
+	timedSeen := 0
+	var perr error
+	for _, se := range w.raw.Sessions() {
+		ps, e := se.Packets()
+		if e != nil && perr == nil {
+			perr = e
+		}
+		for _, sp := range ps {
+			switch rawpeer.EventName(sp.P) {
+			case "ot":
+				if a := rawpeer.Args(sp.P); len(a) > 0 {
+					if v, ok := rawpeer.Num(a[0]); ok {
+						got = append(got, int(v))
+					}
+				}
+			case "ot-timed":
+				timedSeen++
+			}
+		}
+	}
+	wit["ot_events_on_wire"] = got
+	wit["sessions"] = len(w.raw.Sessions())
+	wit["client_connects"], wit["client_disconnects"] = connects.Load(), disconnects.Load()
+	if perr != nil {
+		wit["wire_error"] = perr.Error()
+	}
+	switch {
+	case cbErr.Load() != 1 || cbOK.Load() != 0:
+		run.Violation(vk.Violation{Sub: "offline-ack-timeout-callback", Fields: fields,
+			What: fmt.Sprintf("offline emit with a 30 ms timeout and %d attachments: callback ran %d times with an error and %d times without [%s]", attachments, cbErr.Load(), cbOK.Load(), tr), Witness: wit})
+	case perr != nil || disconnects.Load() > 0 || len(w.raw.Sessions()) > 1:
+		run.Violation(vk.Violation{Sub: "offline-event-lost", Fields: fields,
+			What: fmt.Sprintf("after an offline emit with %d attachments timed out, the first connection did not survive the flush of the offline buffer (wire error: %v, client disconnects: %d, sessions: %d; plain events seen %v, want [0 2 3]) [%s]",
+				attachments, perr, disconnects.Load(), len(w.raw.Sessions()), got, tr), Witness: wit})
+	case !fence || fmt.Sprint(got) != "[0 2 3]":
+		run.Violation(vk.Violation{Sub: "offline-event-lost", Fields: fields,
+			What: fmt.Sprintf("offline emits 0,2,3 around an emit (%d attachments) whose timeout expired offline: the server saw %v (fence seen: %v) [%s]", attachments, got, fence, tr), Witness: wit})
+	case timedSeen > 0:
+		run.Violation(vk.Violation{Sub: "offline-timed-out-event-sent", Fields: fields,
+			What: fmt.Sprintf("the emit whose timeout had expired offline was sent %d times after the connect [%s]", timedSeen, tr), Witness: wit})
+	}
+	run.Distinct(fmt.Sprintf("buffer/offline-timeout/%s/att=%d", tr, attachments))
 }
 
 func bufferCases(run *vk.Run, small bool) []bcfg {
@@ -2420,10 +2537,15 @@ func main() {
 hot:
 	for rep := 0; rep < run.Pick(6, 40); rep++ {
 		for _, tr := range transportSets {
-			runHotEmitter(run, tr, []int{1, 50, 400, 3000}[rep%4])
+			runHotEmitter(run, tr, []int{1, 50, 400, 3000}[rep%4], []int{1, 1, 4, 8}[(rep/4+rep)%4])
 			if run.Violations() > 6 {
 				break hot
 			}
+		}
+	}
+	for _, tr := range transportSets {
+		for att := 0; att <= 3; att++ {
+			runOfflineTimeout(run, tr, att)
 		}
 	}
 	run.Note("hook_hits_before_flush", sio.VerifHookHits(hookFlush))
